@@ -482,7 +482,7 @@ def reachable_arms(layout):
 
 
 @st.composite
-def long_streams(draw, layout, min_pairs=200, max_pairs=340):
+def long_streams(draw, layout, min_pairs=560, max_pairs=760):
     """A long stream (hundreds of messages, thousands of list events in one stream): a few hypothesis-drawn small
     command/response pairs, cycled (drawing every pair separately would exceed hypothesis' entropy budget)."""
     ch = HypChooser(draw)
